@@ -272,6 +272,11 @@ pub fn prof_c12(t: Tier) -> Profile {
     sized(p, t)
 }
 fn run_c12(b: &[u8], t: Tier) -> Outcome {
+    // decoder v2: a quarter of the cases go to the nested-ownership generator (vars of vars,
+    // expert nodes, self-referential closures), half of those in its "one stabilise" form
+    if crate::choice::dv() >= 2 && b.len() >= 2 && b[0] % 4 == 3 {
+        return if b[1] % 2 == 0 { crate::c12x::run(&b[2..], t) } else { crate::c12x::run_one_stabilise(&b[2..], t) };
+    }
     let mut r = run_case(&prof_c12(t), b, None);
     // no drop order may disturb the values of what remains, and nothing may panic
     for f in r.failures.iter_mut() {
